@@ -1,6 +1,7 @@
 """C04 - full loading never imports, calls or instantiates what a document names."""
 import sys
 
+from sa import rules_r6b as R6B
 from sa import report, effects as E, rules_registry as RR, rules_confine as RC
 from sa import rules_repr as RREPR
 from sa import rules_extra as RX
@@ -41,6 +42,10 @@ def run(ctx, repo):
     ctx.call(RC.r_unsafe_only_in_unsafe, repo, UNIVERSES)
     ctx.call(RX.r_getattr_chain, repo)
     ctx.call(RREPR.r_merge_shape, repo)
+    ctx.call(R6B.r_import_result_unused, repo)
+    ctx.call(R6B.r_no_codec_lookup, repo)
+    ctx.call(R6B.r_constructor_kind_checked, repo, ['loader.FullLoader'])
+
 
 if __name__ == '__main__':
     sys.exit(report.main('C04', 'proof', run))
